@@ -12,8 +12,8 @@ Model of the observable end state of a handshake (C11):
   (the response) and of the ClientHello it received (the SNI on the wire, or the inner name under ECH);
 * the server name: `sentName` = what the spec's `SNIExtension` puts on the wire (`hostnameInSNI` of its
   name, the Config name when it has none, the ECH public name under ECH; nothing without the extension
-  or for an IP literal), `clientName` = `c.serverName` after the D07 repair (`ApplyConfig` clears
-  `Hello.ServerName`, the extension's `writeToUConn` sets it to what it sends; `Config.ServerName` once
+  or for an IP literal), `clientName` = `c.serverName` after the D07 repairs (`ApplyConfig` clears
+  `Hello.ServerName`, the extension's `writeToUConn` sets it to what it sends; the inner hello's name once
   ECH is accepted);
 * exported keying material: the exporter closure `c.ekm` is an **uninterpreted** function `F` of
   (secret, transcript, label, context, length); `ExportKeyingMaterial` wraps it in the availability
@@ -75,9 +75,10 @@ def sentName (n : Names) : Bytes :=
   | some e => Sni.hostnameInSNI e
 
 /-- `c.serverName` on the client: `Hello.ServerName` as `ApplyConfig` leaves it (cleared, then set by the
-SNIExtension to what it sends); `Config.ServerName` once ECH was accepted. -/
+SNIExtension to what it sends); once ECH was accepted, the inner hello's server name
+(`hostnameInSNI(Config.ServerName)`; before the repair: `Config.ServerName` verbatim). -/
 def clientName (n : Names) (echAccepted : Bool) : Bytes :=
-  if echAccepted then n.cfgName else sentName n
+  if echAccepted then Sni.hostnameInSNI n.cfgName else sentName n
 
 /-- `c.serverName` on the server: the host name of the ClientHello it acted on — the one on the wire, or
 under accepted ECH the inner hello's (`hostnameInSNI(Config.ServerName)`, built by `makeClientHello`). -/
